@@ -18,6 +18,20 @@ _NAMED = {"amp": "&", "lt": "<", "gt": ">", "quot": '"', "apos": "'"}
 _WS = " \t\n\r\f"
 
 
+# WHATWG "numeric character reference end state": the C1 range is remapped (windows-1252), NUL, surrogates and
+# out-of-range values become U+FFFD
+_C1 = {0x80: 0x20AC, 0x82: 0x201A, 0x83: 0x0192, 0x84: 0x201E, 0x85: 0x2026, 0x86: 0x2020, 0x87: 0x2021, 0x88: 0x02C6,
+       0x89: 0x2030, 0x8A: 0x0160, 0x8B: 0x2039, 0x8C: 0x0152, 0x8E: 0x017D, 0x91: 0x2018, 0x92: 0x2019, 0x93: 0x201C,
+       0x94: 0x201D, 0x95: 0x2022, 0x96: 0x2013, 0x97: 0x2014, 0x98: 0x02DC, 0x99: 0x2122, 0x9A: 0x0161, 0x9B: 0x203A,
+       0x9C: 0x0153, 0x9E: 0x017E, 0x9F: 0x0178}
+
+
+def _numref(v: int) -> str:
+    if v == 0 or v > 0x10FFFF or 0xD800 <= v <= 0xDFFF:
+        return "\ufffd"
+    return chr(_C1.get(v, v))
+
+
 def decode_refs(s: str) -> str:
     out = []
     i, n = 0, len(s)
@@ -31,11 +45,9 @@ def decode_refs(s: str) -> str:
                 if body in _NAMED:
                     rep = _NAMED[body]
                 elif body[:2] in ("#x", "#X") and len(body) > 2 and all(ch in "0123456789abcdefABCDEF" for ch in body[2:]):
-                    v = int(body[2:], 16)
-                    rep = chr(v) if v < 0x110000 else None
+                    rep = _numref(int(body[2:], 16))
                 elif body[:1] == "#" and len(body) > 1 and body[1:].isascii() and body[1:].isdigit():
-                    v = int(body[1:])
-                    rep = chr(v) if v < 0x110000 else None
+                    rep = _numref(int(body[1:]))
                 if rep is not None:
                     out.append(rep)
                     i = j + 1
